@@ -80,6 +80,9 @@ def faults(rng, base_decls):
         f.append(("loop-value", "%s:%s" % (ty, bad), "for %s m_ in [%s]\n    G(m_) | 0\n" % (ty, bad)))
         good = {"int": "1", "float": "0.5", "str": '"s"', "bool": "True"}[ty]
         f.append(("loop-value", "%s:%s:after-good" % (ty, bad), "for %s m_ in %s, %s\n    G(m_) | 0\n" % (ty, good, bad)))
+    # a range is a list of integers: as values of a str loop, or of a bool loop beyond 0 and 1, they are of the wrong type
+    for ty, rg in (("str", "0:2"), ("str", "1:2"), ("bool", "0:3"), ("bool", "2:4"), ("bool", "1:6:2")):
+        f.append(("loop-value", "%s:range %s" % (ty, rg), "for %s m_ in %s\n    G(m_) | 0\n" % (ty, rg)))
     # a value of the wrong type that EQUALS an earlier listed value (1+0j == 1.0 and hash alike in Python)
     for ty, goods, bad in (("float", "1.0", "1+0j"), ("int", "0, 2", "2+0j"), ("int", "3, 0, 1", "0j"), ("float", "0.5, 2.0", "2+0j"),
                            ("int", "2", "2.5 - 0.5 + 0j"), ("float", "0.0", "0j")):
@@ -101,6 +104,13 @@ INC_FAULTS = [
     ("include-keywords", "extra-one", 'include "tmpl.xbb"', "Tmpl(a=1, b=2, c=3) | [1, 2]\n"),
     ("include-keywords", "wrong-name", 'include "tmpl.xbb"', "Tmpl(a=1, bb=2) | [1, 2]\n"),
     ("include-arity", "template-arity", 'include "tmpl.xbb"', "Tmpl(a=1, b=2) | [1]\n"),
+    # the modes listed at the call of an included program are modes like any other
+    ("mode", "include-call:float-literal", 'include "sub2.xbb"', "Sub2 | [1, 1.5]\n"),
+    ("mode", "include-call:float-integer-valued", 'include "sub2.xbb"', "Sub2 | [2.0, 1]\n"),
+    ("mode", "include-call:computed-float", 'include "sub2.xbb"', "Sub2 | [3/2, 0]\n"),
+    ("mode", "include-call:complex", 'include "sub2.xbb"', "Sub2 | [0, 1j]\n"),
+    ("mode", "include-call:template-float", 'include "tmpl.xbb"', "Tmpl(a=1, b=2) | [0.5, 1]\n"),
+    ("mode", "include-call:string", 'include "sub2.xbb"', 'str sm_ = "a"\nSub2 | [sm_, 1]\n'),
 ]
 
 DECLS = 'int n_ = 2\nfloat f_ = 0.5\ncomplex c_ = 1+2j\nstr s_ = "a"\nfloat array A_ =\n    1, 2\n    3, 4\n'
